@@ -298,10 +298,17 @@ impl KotoVm {
         // Ensure that execution stops here if an error is thrown
         self.frame_mut().execution_barrier = true;
 
+        let sequence_builder_count = self.sequence_builders.len();
+        let string_builder_count = self.string_builders.len();
+
         // Run the chunk
         let result = self.execute_instructions();
         if result.is_err() {
             self.pop_frame(KValue::Null)?;
+            // Discard any sequences or strings that were under construction when the error
+            // was thrown.
+            self.sequence_builders.truncate(sequence_builder_count);
+            self.string_builders.truncate(string_builder_count);
         }
 
         // Reset the register stack back to where it was at the start of the run
@@ -417,9 +424,15 @@ impl KotoVm {
         } else {
             // Otherwise, execute instructions until this frame is exited
             self.frame_mut().execution_barrier = true;
+            let sequence_builder_count = self.sequence_builders.len();
+            let string_builder_count = self.string_builders.len();
             let result = self.execute_instructions();
             if result.is_err() {
                 self.pop_frame(KValue::Null)?;
+                // Discard any sequences or strings that were under construction when the
+                // error was thrown.
+                self.sequence_builders.truncate(sequence_builder_count);
+                self.string_builders.truncate(string_builder_count);
             }
             result
         };
@@ -1122,7 +1135,13 @@ impl KotoVm {
                 catch_offset,
             } => {
                 let catch_ip = self.ip() + catch_offset as u32;
-                self.frame_mut().catch_stack.push((arg_register, catch_ip));
+                let catch_point = CatchPoint {
+                    error_register: arg_register,
+                    catch_ip,
+                    sequence_builder_count: self.sequence_builders.len(),
+                    string_builder_count: self.string_builders.len(),
+                };
+                self.frame_mut().catch_stack.push(catch_point);
             }
             TryEnd => {
                 self.frame_mut().catch_stack.pop();
@@ -3701,8 +3720,15 @@ impl KotoVm {
 
         while let Some(frame) = self.call_stack.last() {
             match frame.catch_stack.last() {
-                Some((error_register, catch_ip)) if allow_catch => {
-                    return Ok((*error_register, *catch_ip));
+                Some(catch_point) if allow_catch => {
+                    let catch_point = *catch_point;
+                    // Discard any sequences or strings that were under construction when the
+                    // error was thrown.
+                    self.sequence_builders
+                        .truncate(catch_point.sequence_builder_count);
+                    self.string_builders
+                        .truncate(catch_point.string_builder_count);
+                    return Ok((catch_point.error_register, catch_point.catch_ip));
                 }
                 _ => {
                     if frame.execution_barrier {
@@ -4001,7 +4027,7 @@ struct Frame {
     // When returning to this frame, the register that should receive the return value
     pub return_value_register: Option<u8>,
     // A stack of catch points for handling errors
-    pub catch_stack: Vec<(u8, u32)>, // catch error register, catch ip
+    pub catch_stack: Vec<CatchPoint>,
     // True if the frame should prevent execution from continuing after the frame is exited.
     // e.g.
     //   - a function is being called externally from the VM
@@ -4009,6 +4035,19 @@ struct Frame {
     //   - an external function is calling back into the VM with a functor
     //   - a module is being imported
     pub execution_barrier: bool,
+}
+
+// A catch point, registered when a `try` block is entered
+#[derive(Clone, Copy)]
+struct CatchPoint {
+    // The register that should receive the caught error
+    error_register: u8,
+    // The ip of the start of the catch block
+    catch_ip: u32,
+    // The number of sequences that were under construction when the try block was entered
+    sequence_builder_count: usize,
+    // The number of strings that were under construction when the try block was entered
+    string_builder_count: usize,
 }
 
 impl Frame {
